@@ -71,6 +71,7 @@ Proof.
   all: split; repeat (apply Forall_upd); auto; simpl.
   all: try match goal with |- box_ok _ (fst (push_entry _ _ _)) => apply push_ok; [assumption | unfold eok; simpl; auto] end.
   all: try match goal with |- box_ok _ _ => assumption || (unfold box_ok in *; simpl in *; tauto) end.
+  all: try match goal with |- box_ok _ (set_intr ?b) => unfold set_intr; destruct (pol b && negb (intr b)); [unfold box_ok in *; simpl in *; tauto | assumption] end.
   all: repeat (constructor; simpl; auto); auto using iok_cmds, iok_cw.
   all: try (apply Forall_app; split; auto using iok_cmds; repeat (constructor; simpl; auto)).
   all: try match goal with Hx : nth_error ?l ?i = Some ?w0 |- forall w, nth_error (upd ?l ?i _) ?i = Some w -> _ =>
